@@ -35,7 +35,7 @@ func randAtom(r *rand.Rand, depth int) string {
 	case 7:
 		return pick(r, []string{"true", "false", "TRUE", "False"})
 	case 8:
-		return pick(r, []string{"10s", "1h30m", "5µ", "1w", "0s"})
+		return pick(r, []string{"10s", "1h30m", "5µ", "1w", "0s", "3s7µ", "1ms500µ", randCompositeDuration(r)})
 	case 9:
 		return "-" + randAtom(r, depth+1)
 	case 10:
